@@ -618,10 +618,10 @@ func (e *Engine) translateFunc(key string, preCells []*Cell) (res *funcResult) {
 		t.writeRanges = append(t.writeRanges, writeRange{mem, t.newTemp("wlo", lo), t.newTemp("whi", hi)})
 	}
 	for _, a := range fc.Asserts {
-		t.hasStmtSites = t.hasStmtSites || strings.HasPrefix(a.Site, "stmt ") || strings.HasPrefix(a.Site, "after stmt ")
+		t.hasStmtSites = t.hasStmtSites || strings.HasPrefix(a.Site, "stmt ") || strings.HasPrefix(a.Site, "after stmt ") || strings.HasPrefix(a.Site, "end loop ")
 	}
 	for s := range fc.GhostAt {
-		t.hasStmtSites = t.hasStmtSites || strings.HasPrefix(s, "stmt ") || strings.HasPrefix(s, "after stmt ")
+		t.hasStmtSites = t.hasStmtSites || strings.HasPrefix(s, "stmt ") || strings.HasPrefix(s, "after stmt ") || strings.HasPrefix(s, "end loop ")
 	}
 	body := t.proc.NewBlock("body")
 	t.cur.Goto(body)
